@@ -5,13 +5,21 @@ import sys
 import time
 
 VERIF = os.path.dirname(os.path.dirname(os.path.abspath(__file__)))
-FINDINGS_FILE = os.path.join(VERIF, "known_findings.json")
+FINDINGS_DIR = os.path.join(VERIF, "known_findings")
 
 
-def load_findings():
-    with open(FINDINGS_FILE) as fh:
-        data = json.load(fh)
-    return data.get("findings", []), data.get("fixed", [])
+def load_findings(prop=None):
+    """Known findings live in known_findings/<property>.json (one file per property, committed,
+    never written at run time): {"findings": [{property,id,match,what,witness}], "fixed": [...]}"""
+    findings, fixed = [], []
+    for name in sorted(os.listdir(FINDINGS_DIR)):
+        if not name.endswith(".json") or (prop and name != prop + ".json"):
+            continue
+        with open(os.path.join(FINDINGS_DIR, name)) as fh:
+            data = json.load(fh)
+        findings += data.get("findings", [])
+        fixed += data.get("fixed", [])
+    return findings, fixed
 
 
 def _match(entry_match, sig):
@@ -68,7 +76,7 @@ class Report:
 
     # -- finishing ---------------------------------------------------------
     def finish(self):
-        findings, _fixed = load_findings()
+        findings, _fixed = load_findings(self.prop)
         mine = [f for f in findings if f["property"] == self.prop]
         known_hits = {}
         unknown = []
